@@ -28,8 +28,8 @@ MANIFEST = dict(
     note="Trusted: Coq kernel; hand-written model (tie to code = differential testing); extraction + OCaml runner (float arithmetic of the "
          "operator patterns is OCaml doubles); Rust harness; Python oracle. Patterns are modelled after evaluation (annotation/default "
          "expressions are values), names are declared in one scope; indexed lvalues only through the list case of set_index. "
-         "Conversion functions (int(x), str(x), ...) are checked in-language only (`T(v) is T`), not modelled; float->int of non-finite "
-         "values is C07's F16 and skipped. Dictionaries with more than one entry are not destructured (hash order).",
+         "Conversions: modelled in Lang/Convert.v except string parsing/formatting and float rounding (those are checked in-language "
+         "only, `T(v) is T`); float->int of non-finite values is C07's F16 and skipped. Dictionaries with more than one entry are not destructured (hash order).",
     design="6-C12")
 
 # ----------------------------------------------------------------------------- values
@@ -1772,32 +1772,70 @@ def gen_conv_cases():
     cases = []
     for t in CONV_TYPES:
         for v in POOL:
-            cases.append(dict(kind="conv", v=v, t=t, model=None,
-                              src=f"zzv := {v_src(v)}; zzr := {ty_src(t)}(zzv); zzr is {ty_src(t)}"))
+            cases.append(dict(kind="conv", v=v, t=t, model=f"conv {ty_model(t)} {v_model(v)}",
+                              src=f"zzv := {v_src(v)}; zzr := {ty_src(t)}(zzv); [zzr is {ty_src(t)}, zzr]"))
     return cases
 
 
-def evaluate_conv(ctx, cases):
-    """in-language only (the conversion functions are not modelled): when T(v) returns, `T(v) is T`"""
+def py_convert(t, v):
+    """oracle for the conversions whose meaning is plain mathematics; 'any' otherwise"""
+    k = v[0]
+    if t == "list":
+        es = py_elements(v)
+        return "any" if (k == "dict" and len(v[1]) > 1) else ("err" if es is None else "ok " + canon(("list", es)))
+    if t == "stream":
+        es = py_elements(v)
+        return "any" if (k == "dict" and len(v[1]) > 1) else ("err" if es is None else "ok " + canon(("stream", es)))
+    if t == "number":
+        return "ok " + canon(v) if k in NUMS else "any" if k == "str" else "err"
+    if t == "int" and k in ("int", "rat"):
+        q = real_of(v)
+        return "ok " + canon(I(int(q)))          # int() of a Fraction truncates toward zero
+    if t == "rational" and k in ("int", "rat", "flt"):
+        q = real_of(v)
+        return "err" if isinstance(q, str) else "ok " + canon(R(q.numerator, q.denominator))
+    return "any"
+
+
+def evaluate_conv(ctx, cases, runner=None):
+    """when T(v) returns, `T(v) is T` (in-language); the returned value against Lang/Convert.v where modelled"""
     res = run_progs([[PRELUDE, c["src"]] for c in cases])
-    bad, stats = [], {"returned": 0, "raised": 0, "skipped_F16": 0}
-    for c, r in zip(cases, res):
+    mres = common.run_model(runner, [c["model"] for c in cases]) if runner else [None] * len(cases)
+    bad, stats = [], {"returned": 0, "raised": 0, "skipped_F16": 0, "model_compared": 0, "not_modelled": 0}
+    for c, r, m in zip(cases, res, mres):
         rr = r["results"][-1] if "results" in r else r
         st = rr.get("status")
         c["impl"] = "ok " + rr["val"] if st == "ok" else st
+        c["model_says"] = m
         v = c["v"]
         if c["t"] == "int" and v[0] == "flt" and (is_nan_bits(v[1]) or abs(bits2f(v[1])) == float("inf")):
             stats["skipped_F16"] += 1  # int(inf) returns the float: C07's finding F16, not C12's
             continue
         if st in ("panic", "hang", "abort", "badjson", "parse"):
             bad.append(("property", c, r, f"conversion did not return normally: {st}"))
-        elif st == "ok":
+            continue
+        if st == "ok":
             stats["returned"] += 1
+            flag, val = parse_canon(rr["val"])[1]
+            obs = "ok " + canon(val)
             c["oracle"] = "ok I1"
-            if rr["val"] != "I1":
+            if canon(flag) != "I1":
                 bad.append(("property", c, r, "T(v) returned a value that is not of type T"))
+                continue
         else:
             stats["raised"] += 1
+            obs = "err"
+        orc = py_convert(c["t"], v)
+        if orc != "any" and orc != obs:
+            c["oracle"] = orc
+            bad.append(("property", c, r, f"conversion result {obs} differs from its mathematical meaning {orc}"))
+        elif m is not None:
+            if m == "none":
+                stats["not_modelled"] += 1
+            else:
+                stats["model_compared"] += 1
+                if m != obs and not (v[0] == "dict" and len(v[1]) > 1):
+                    bad.append(("correspondence", c, r, f"model {m} vs implementation {obs}; the oracle accepts the implementation"))
     return bad, stats
 
 
@@ -1811,7 +1849,7 @@ def run(ctx):
     bad2, n_is = evaluate_is(ctx, is_cases, runner)
     report(ctx, bad2)
     conv_cases = gen_conv_cases()
-    bad4, cstats = evaluate_conv(ctx, conv_cases)
+    bad4, cstats = evaluate_conv(ctx, conv_cases, runner)
     report(ctx, bad4)
     hists = corpus_hists() + fixed_hists() + [gen_hist(ctx.rng, ctx.rng.randrange(5, 16)) for _ in range(ctx.n(320, 3000))]
     bad3, hstats = evaluate_hists(ctx, hists, runner)
@@ -1855,7 +1893,7 @@ def replay(ctx, rep):
     if c.get("kind") in ("is", "is_type_of", "is_null", "typeof"):
         bad, _ = evaluate_is(ctx, [c], runner)
     elif c.get("kind") == "conv":
-        bad, _ = evaluate_conv(ctx, [c])
+        bad, _ = evaluate_conv(ctx, [c], runner)
     elif c.get("kind") == "hist":
         bad, _ = evaluate_hists(ctx, [c], runner)
     else:
